@@ -116,6 +116,58 @@ def candidates(st):
 
 OK_EXC = (ValueError, UserWarning)
 
+PENDING = {'post_ante': 'ante_posting_statuses', 'post_blind_or_straddle': 'blind_or_straddle_posting_statuses',
+           'select_runout_count': 'runout_count_selector_statuses', 'kill_hand': 'hand_killing_statuses'}
+
+
+def served_other(op, st, c, i):
+    """An accepted operation with the explicit player index i, no automation following it: a description of any effect
+    on the per-player bookkeeping that lands on another player (or misses i), else None."""
+    n = st.player_count
+    others = [j for j in range(n) if j != i]
+    f = PENDING.get(op)
+    if f:
+        b, a = list(getattr(st, f)), list(getattr(c, f))
+        if not b[i] or a[i] or any(a[j] != b[j] for j in others):
+            return f'{f} {b} -> {a}'
+    if op in ('post_ante', 'post_blind_or_straddle', 'pull_chips'):
+        if any(st.stacks[j] != c.stacks[j] or st.bets[j] != c.bets[j] for j in others):
+            return f'stacks/bets of other players changed: {st.stacks}/{st.bets} -> {c.stacks}/{c.bets}'
+        if (st.stacks[i], st.bets[i]) == (c.stacks[i], c.bets[i]) and (op != 'post_ante' or st.antes[i]) \
+                and (op != 'post_blind_or_straddle' or st.blinds_or_straddles[i]):
+            return f'stack/bet of player {i} unchanged'
+    if op == 'kill_hand':
+        if c.statuses[i] or any(st.statuses[j] != c.statuses[j] for j in others):
+            return f'statuses {st.statuses} -> {c.statuses}'
+    if op in ('deal_hole', 'show_or_muck_hole_cards', 'kill_hand'):
+        if any(list(st.hole_cards[j]) != list(c.hole_cards[j]) or list(st.hole_card_statuses[j]) != list(c.hole_card_statuses[j])
+               for j in others):
+            return 'hole cards of other players changed'
+    if op == 'deal_hole':
+        if len(c.hole_cards[i]) <= len(st.hole_cards[i]):
+            return f'player {i} received no card'
+        b, a = [len(x) for x in st.hole_dealing_statuses], [len(x) for x in c.hole_dealing_statuses]
+        if c.street_index == st.street_index and any(a) and (any(a[j] != b[j] for j in others) or a[i] >= b[i]):
+            return f'pending hole cards {b} -> {a}'
+    if op == 'show_or_muck_hole_cards' and st.street is not None:
+        want = [x for x in st.showdown_indices if x != i]
+        if list(c.showdown_indices) != want:
+            return f'players still to show {list(st.showdown_indices)} -> {list(c.showdown_indices)}, expected {want}'
+    return None
+
+
+def default_player(op, st):
+    if op == 'show_or_muck_hole_cards':
+        return st.showdown_index
+    if op == 'deal_hole':
+        return st.hole_dealee_index
+    f = PENDING.get(op)
+    if f:
+        return next((j for j, x in enumerate(getattr(st, f)) if x), None)
+    if op == 'pull_chips':
+        return next((j for j, x in enumerate(st.bets) if x), None)
+    return None
+
 
 class ContractMonitor:
     name = 'contract'
@@ -188,6 +240,13 @@ class ContractMonitor:
                     ctx.counters['explicit_index_accepted'] += 1
                     if getattr(rec, 'player_index', None) != args[k]:
                         self._v(ctx, 'explicit-index-ignored', op, args, f'record names player {getattr(rec, "player_index", None)}')
+                    elif len(c.operations) == len(st.operations) + 1:
+                        ctx.counters['explicit_index_effects_checked'] += 1
+                        if default_player(op, st) != args[k]:
+                            ctx.counters['out_of_turn_explicit_index_effects_checked'] += 1
+                        bad = served_other(op, st, c, args[k])
+                        if bad:
+                            self._v(ctx, 'explicit-index-served-another-player', op, args, bad)
             else:
                 ctx.counters['refused'] += 1
                 if canon.snapshot(c) != snap0:
@@ -246,7 +305,7 @@ def run_job(job):
 
 def sanity(agg, counters, fam, tier):
     msgs = []
-    for k in ('accepted', 'refused', 'explicit_index_accepted'):
+    for k in ('accepted', 'refused', 'explicit_index_accepted', 'out_of_turn_explicit_index_effects_checked'):
         if not counters.get(k):
             msgs.append(f'{k} == 0')
     return msgs
